@@ -6,7 +6,7 @@ is a bool; the rule instance count for None-defaulted parameters is zero, the se
 import ast
 
 from .terms import T, walk_terms
-from .walk import cond_polarity, strip_views, norm_stmt
+from .walk import cond_polarity, strip_views, norm_stmt, is_call_to, call_parts
 
 
 def check_optional_truthiness(run, A, module_prefixes, rule='R-OPT'):
@@ -386,3 +386,77 @@ def check_none_use(run, A, module_prefixes, rule='R-NONE'):
                                   f'`{norm_stmt(bad.node)[:90]}` operates on a name in the branch where it was just tested to be None', construct=f'{rule}::{fn.qual}::none-use')
     run.count('operations examined for use of a value known to be None', n)
     return n
+
+
+SANITISERS = ('numpy.maximum', 'numpy.minimum', 'numpy.clip', 'numpy.nan_to_num', 'numpy.where')
+EFFECT_METHODS = ('append', 'extend', 'insert', 'update', 'fill', 'sort', 'setdefault', 'add', 'pop', 'remove', 'warn')
+
+
+def check_dropped_sanitisers(run, A, module_prefixes, rule='R-DROP'):
+    """a floor / clamp / NaN replacement that is computed and whose value then reaches nothing - no returned value, no store, no in-place update, no argument of a call
+    with effects, no test: the protection the statement expresses is not applied (typically the statement that wrote it back was lost).  Only these guarding calls are
+    judged: an unused temporary of another kind is untidy, not unsafe."""
+    n = 0
+    for fn in A.prog.all_funcs():
+        if not any(fn.mod.name == p.rstrip('.') or fn.mod.name.startswith(p) for p in module_prefixes):
+            continue
+        g = A.graphs.get(fn)
+        cand = [e for e in g.events if e.kind == 'call' and is_call_to(e.term, *SANITISERS)]
+        if not cand:
+            continue
+        roots = [g.ret]
+        for e in g.events:
+            roots += [c for c, _ in (e.guards or [])]
+            if e.kind in ('store', 'inplace', 'setattr', 'assert', 'raise', 'return', 'global_store', 'break', 'continue'):
+                roots.append(e.term)
+            elif e.kind == 'call':
+                nm = call_parts(e.term)[0]
+                pure = nm is not None and (nm.startswith('numpy.') or nm.startswith('scipy.') or nm.startswith('builtin.') or nm.startswith('method:'))
+                if not pure or (nm.startswith('method:') and nm.split(':')[1] in EFFECT_METHODS) or nm in ('builtin.print', 'builtin.setattr', 'builtin.next'):
+                    roots.append(e.term)
+        seen = set()
+        for r in roots:
+            if isinstance(r, T):
+                for _t in walk_terms(r, seen):
+                    pass
+        # names read by nested functions / lambdas capture values the term graph of the outer function does not show
+        captured = set()
+        for sub in ast.walk(fn.node):
+            if isinstance(sub, (ast.FunctionDef, ast.Lambda)) and sub is not fn.node:
+                captured |= {x.id for x in ast.walk(sub) if isinstance(x, ast.Name)}
+        for e in cand:
+            node = e.term.node
+            # judged: `name = np.maximum(...)` and a bare `np.maximum(...)` statement.  A guarding call nested in a larger expression is used by that expression
+            # (the builder may have fused it with its neighbour - minimum(maximum(x, a), b) is clip - so the inner term alone says nothing)
+            stmt = tgt = None
+            for st in ast.walk(fn.node):
+                if isinstance(st, ast.Assign) and st.value is node and len(st.targets) == 1 and isinstance(st.targets[0], ast.Name):
+                    stmt, tgt = st, st.targets[0].id
+                elif isinstance(st, ast.Expr) and st.value is node:
+                    stmt = st
+            if stmt is None:
+                continue
+            n += 1
+            if e.term.id in seen:
+                continue
+            if tgt is not None:
+                if tgt in captured:
+                    continue
+                # the name is read again (later in the text, or anywhere in a loop that contains the statement): its value was used, possibly fused with the reader by a canonical form
+                loops_ = [lp for lp in ast.walk(fn.node) if isinstance(lp, (ast.For, ast.While)) and any(x is stmt for x in ast.walk(lp))]
+                reads = [x for x in ast.walk(fn.node) if isinstance(x, ast.Name) and x.id == tgt and isinstance(x.ctx, ast.Load) and
+                         (x.lineno > stmt.end_lineno or any(any(y is x for y in ast.walk(lp)) for lp in loops_)) and not any(y is x for y in ast.walk(stmt))]
+                if reads:
+                    continue
+            run.violation(rule, f'{fn.qual.split("::")[1]}: the value of a floor / clamp reaches a result or an effect', fn.loc(node),
+                          f'`{norm_stmt_of(node)}` is computed and then dropped: nothing returned, stored or tested depends on it, the protection is not applied',
+                          construct=f'{rule}::{fn.qual}::dropped::{call_parts(e.term)[0]}')
+    run.count('floors / clamps examined for reaching a result or effect', n)
+    return n
+
+
+def norm_stmt_of(node):
+    try:
+        return ' '.join(ast.unparse(node).split())[:90]
+    except Exception:
+        return '<expression>'
